@@ -405,7 +405,13 @@ theorem _cpython_abis_eq_model (cfg : Cfg) (ver : List Nat) (warn : PyVal) :
         rw [a, b]
   have e6 : (PyVal.int (if cfg.maxUnicodeWide then 1114111 else 65535)).eq (PyVal.int 1114111) = cfg.maxUnicodeWide := by
     cases cfg.maxUnicodeWide <;> simp
-  simp only [e1, e2, e3, e4, e5, e6, ok_bind, truthy_bool, format_str, list_append_list, List.nil_append]
+  simp only [e1, e2, e3, e4, e5, e6, ok_bind, truthy_bool, format_str, list_append_list, List.nil_append, PyRt.eq, PyRt.is_none,
+    isNone_ofCV]
+  -- `a or (b and c)` with its short circuit (the last operand reads the environment)
+  have hsc : ∀ a b c : Bool, (if a = true then Except.ok (PyVal.bool a) else if b = true then Except.ok (PyVal.bool c)
+      else Except.ok (PyVal.bool b) : M PyVal) = .ok (.bool (a || b && c)) := by
+    intro a b c; cases a <;> cases b <;> rfl
+  simp only [hsc, ok_bind, truthy_bool]
   clear g1 g2 g3 g4 hnd hsl htup e1 e2 e3 e4 e5 e6 h313 h38 h33
   have hins : ∀ (l : List PyVal) (x : PyVal), list_insert (.list l) (.int 0) x = .ok (.list (x :: l)) := by
     intro l x
